@@ -37,6 +37,16 @@ CLAIMED = {
  'C19': dict(text='Proof (Coq) over bodies of k_factor, k2_factor_sq, k_to_dof, k2_to_dof, _df_k2 regenerated from reporting.py each run: RuntimeError iff out of range; k_factor is the two-sided quantile of any symmetric cdf whose one-sided quantiles the scipy oracles are; k2_factor_sq = df((1-p)^(-2/(df-1))-1) = 2df/(df-1) x F(2,df-1) quantile, increasing in p, decreasing in df, limit -2ln(1-p) with a bound on the jump at the switch; fn = 0 in _df_k2 iff k2^2 = k2_factor_sq(nu2+1); bracket logic; round trip for k2. Student-t inverse pair and monotonicity of the t quantile: oracle hypotheses (partial). p-range of k2_factor_sq refuted (known finding).',
              note='Coq kernel, Reals axioms/classic/funext (+ constructive_indefinite_description in non-vacuity examples); scipy.special/ridder as Section variables (oracles); translator tools/tr_reporting.py.',
              technique='Coq proof (real analysis with Coquelicot, MVT/IVT) over translator-generated bodies + correspondence with scipy results as oracle table', ref='6 C19'),
+
+ 'C07': dict(text='Proof (Coq), all archives: JSON and XML codecs decode(encode f) = image f with the representation changes explicit; thaw in a fresh context restores every leaf attribute and node record; freeze -> {pickle, JSON, XML} -> thaw gives identical x, uc, dc, uid and ic w.r.t. archived intermediates whenever the load succeeds. Load success under session invariants, complex end to end, report congruence of continued calculations, same-session re-attachment, legacy reader: bit-exact correspondence of freeze/documents/readers/thaw + original-vs-restored differential (partial). Three refuted cases are known findings.',
+             note='Coq kernel (closed or funext), correspondence harness incl. real subprocess sessions and shipped reference files in the thorough tier; json/xml/pickle libraries trusted as parsers/printers.',
+             technique='Coq proof (induction over archive collections; codec round trips) + bit-exact correspondence of freeze/codec/thaw stages', ref='6 C07'),
+ 'C16': dict(text='Proof (Coq, no axioms), every element type, shape, rank and history: NumPy broadcast index map; every binary ufunc incl. comparisons and scalar-array combinations is the element-wise lifting with the broadcast shape after any history; unary ufuncs, views, copy, result, sensitivity zips are element-wise with the own shape on objects holding no remembered shape; history independence for histories without a broadcasting binary op, and in general for binary ufuncs. History dependence through the stale _broadcasted_shape, arctan2 dispatch/broadcast defects, non-broadcasting zips and pickle loss are refuted with witnesses (known findings). Structured arrays, slicing, matmul, reductions: not modelled.',
+             note='Coq kernel (closed under the global context); numpy broadcasting is the correspondence partner; scalar operations as a recorded table.',
+             technique='Coq proof (induction on rank; state machine over array objects) + exact correspondence of shapes, element ids and remembered shapes', ref='6 C16'),
+ 'C20': dict(text='Proof (Coq), all inputs: mul2 of two reals has the exact second-order variance for both estimated values, attribution to the union of influences, budget rss = u, the four preconditions; complex/mixed products as sums of real second-order products; % and fmod: Python value, components of x unchanged for every sign, errors exactly at y = 0; merge: value of a, components of both, raises beyond TOL; implicit: components are -u_i(F)/(dF/dx) at the returned point, RuntimeError on empty range / no sign change. Weight formulas, tolerances and value expressions regenerated from source each run. Convergence of the root loop, fn(x)=0 in all components, complex merge/implicit: correspondence (partial). Root at a bracket end refuted (known finding).',
+             note='Coq kernel, Reals axioms/classic/funext, translator tools/tr_special.py, bit-exact correspondence incl. the Newton/bisection loop with fn evaluated by the kernel evaluator.',
+             technique='Coq proof (vector algebra + LPU + ChainRule Den) over translator-generated formulas + bit-exact correspondence', ref='6 C20'),
 }
 NA_REASON = 'machinery for this property is not built yet in this revision (planned: see DESIGN.md section 6); not claimed until its check exists'
 m = {
